@@ -550,10 +550,17 @@ def check_reads(job):
             files['meson.build'] = files['meson.build'].replace("subproject('sub')\n", "subproject('sub', required: false)\n")
             files['subprojects/sub/meson.build'] += {'failing-subproject-error': "error('giving up')\n",
                                                      'failing-subproject-dependency': "dependency('verif-no-such-dependency')\n",
-                                                     'failing-subproject-subdir': "subdir('sd')\n"}[variant]
+                                                     'failing-subproject-subdir': "subdir('sd')\n",
+                                                     'failing-subproject-subdir-syntax': "subdir('sd')\n",
+                                                     'failing-subproject-syntax': "x = = 1\n"}[variant]
             if variant.endswith('-subdir'):
                 files['subprojects/sub/sd/meson.build'] = "sd = fs.read('SD.txt')\nerror('giving up in a subdir')\n"
                 files['subprojects/sub/sd/SD.txt'] = 'sd\n'
+            if variant.endswith('-subdir-syntax'):
+                files['subprojects/sub/sd/meson.build'] = "sd = fs.read('SD.txt'\n"     # read, but it does not parse
+            if variant.endswith('subproject-syntax'):
+                # the subproject's own build file does not parse: nothing of it is evaluated, so S.txt / KS.cfg are not read
+                del files['subprojects/sub/S.txt'], files['subprojects/sub/KS.cfg']
         mp.write_tree(src, files)
         r = mp.run_meson(['setup', bdir, src], root, timeout=90)
         if r.rc != 0:
@@ -562,7 +569,7 @@ def check_reads(job):
             listed = {os.path.relpath(os.path.normpath(p), src) for p in load(bdir, 'intro-buildsystem_files.json')}
             tag = ' [%s, %s]' % (variant, rnd)
             for grp in READS_GROUPS:
-                grp = [g for g in grp if variant != 'no-subproject' or not g.startswith('subprojects/')]
+                grp = [g for g in grp if (variant != 'no-subproject' or not g.startswith('subprojects/')) and g in files]
                 inn = [g for g in grp if g in listed]
                 if inn and len(inn) != len(grp):
                     v.append(('C15:buildsystem_files:read-files-treated-differently',
@@ -680,7 +687,7 @@ def main():
     jobs.append(('tests',))
     jobs.append(('reads', 'with-subproject'))
     jobs.append(('reads', 'no-subproject'))
-    for how in ('error', 'dependency', 'subdir'):
+    for how in ('error', 'dependency', 'subdir', 'subdir-syntax', 'syntax'):
         jobs.append(('reads', 'failing-subproject-' + how))
     jobs.append(('install', 'rich', RICH))
     jobs.append(('install', 'nolang', NOLANG))
